@@ -93,6 +93,29 @@ CLAIMS.update({
          "3.11, 4 (C23)"),
 })
 
+CLAIMS.update({
+ "C01": ("codec rules on table readers in generated parsers (bounds/class guards), entry-point check, plus the writer-side rules of C04/C05/C06",
+         "Decides that readers decode each table cell class under the test of its class with bounds-guarded packed-table reads, that entry points start at their input's state, and that the writers (populateTables, minimize, Optimize) keep the encodings consistent. Necessary conditions of language equivalence; the LALR construction itself is not decided.",
+         "Generated sources are sources (pinned TestGenerate ties them to the templates).",
+         "3.1, 3.9, 4 (C01)"),
+ "C02": ("AST/constant evaluation of every applyRule case against tmRuleLen; marker-transparency rules",
+         "Decides that every listener range emitted in a rule's case lies inside that rule's right-hand side and is non-empty, that markers never count as or hide symbols, and that trailing empty symbols are fully trimmed. Necessary conditions only.",
+         "tmRuleLen/tmRuleSymbol/tmNonterminals literals of the same package.",
+         "3.9, 4 (C02)"),
+ "C16": ("STACKIDX plus def-use rules on SymRefCount and ActionVars.resolve",
+         "Decides that emitted $-references address slots of their own rule, that the depth they are computed from skips markers, and that a resolved reference's position and index belong together. Necessary conditions only.",
+         "",
+         "3.9, 4 (C16)"),
+ "C19": ("loop-variant and guard rules on recoverFromError/skipBrokenCode/parse; packed-table bounds",
+         "Decides termination-relevant shape of the recovery search (shrinking recovery set, EOI exit, advancing skip loop), the per-parse reset of the suppression counter, and panic-freedom of table probes during recovery. Necessary conditions only.",
+         "",
+         "3.9, 4 (C19)"),
+ "C20": ("ordering rule flush-after-extend, loop-shape rule for trimming, STACKIDX",
+         "Decides two orderings that nesting depends on (error node flushed after its range is final; all trailing empties trimmed) and non-empty in-rule ranges. Necessary conditions only; the tree builder is not examined.",
+         "",
+         "3.9, 4 (C20)"),
+})
+
 NA = {
 }
 
